@@ -105,6 +105,12 @@ def run_deductive(spec, res, tier):
                 res.errors.append(f'lemmas of {modname}: {e}')
         for l in sorted(eng.libs_used):
             res.assumptions.add(l)
+        if eng.axioms:
+            # the defining equations of the module's spec functions (and any relation assumed for an uninterpreted callee) are hypotheses
+            res.assumptions.add(f'AXIOMS[{modname}]: ' + ', '.join(str(a[0]) for a in eng.axioms))
+        if getattr(eng, 'inductive', None):
+            res.assumptions.add(f'INDUCTION[{modname}]: ' + ', '.join(str(a[0]) for a in eng.inductive) +
+                                ' -- used as hypotheses; base case and step are obligations of the same run')
         if not obls:
             continue
         main = [o for o in obls if o.expect == 'proved']
